@@ -2,7 +2,7 @@
    encode the model's answers the way harness/props/c03_model.py encodes the real Director's answers and
    return the indices of the queries on which they differ. *)
 From Coq Require Import ZArith List Bool Arith NArith.
-From PV Require Import Directors.Model.
+From PV Require Import Generated.C03_ErrorClasses Directors.Model.
 Import ListNotations.
 Open Scope Z_scope.
 
@@ -42,3 +42,47 @@ Definition run_case (disable : list N) (fr : list (Z * Z)) (rl : list Z) (gs : l
 
 Definition bad_cases (cs : list (nat * list nat)) : list (nat * list nat) :=
   filter (fun c => match snd c with [] => false | _ => true end) cs.
+
+(* ---- compact form: the harness enumerates the same grid of queries (harness/props/c03.py query_list):
+   for l = 0 .. nl+1, for each name (in order): (l, name, False) and, for the implicit-return class and for the
+   first name on every fifth line, also (l, name, True).  Only the answers that differ from the default
+   "logged, line unchanged" = (1, l) are listed, by index. *)
+Fixpoint enum_names (l : Z) (names : list N) (first : bool) : list (Z * N * bool) :=
+  match names with
+  | [] => []
+  | n :: r =>
+    (l, n, false) ::
+    (if (n =? implicit_return_error)%N || (first && (l mod 5 =? 0)) then [(l, n, true)] else [])
+    ++ enum_names l r false
+  end.
+Definition enum_queries (nl : nat) (names : list N) : list (Z * N * bool) :=
+  flat_map (fun l => enum_names (Z.of_nat l) names true) (seq 0 (nl + 2)).
+
+Fixpoint lookup_exc (i : nat) (exc : list (nat * (Z * Z))) : option (Z * Z) :=
+  match exc with
+  | [] => None
+  | (j, v) :: r => if Nat.eqb i j then Some v else lookup_exc i r
+  end.
+
+Fixpoint mismatches_grid (st : dstate) (rl : list Z) (qs : list (Z * N * bool))
+    (exc : list (nat * (Z * Z))) (i : nat) : list nat :=
+  match qs with
+  | [] => []
+  | (l, n, r) :: rest =>
+    let a := enc (filter_error st rl (mkErr true (Some l) n r)) in
+    let e := match lookup_exc i exc with Some v => v | None => (1, l) end in
+    if (fst a =? fst e) && (snd a =? snd e) then mismatches_grid st rl rest exc (S i)
+    else i :: mismatches_grid st rl rest exc (S i)
+  end.
+
+Definition run_grid (disable : list N) (fr : list (Z * Z)) (rl : list Z) (gs : list group)
+    (build_code : Z) (nl : nat) (names : list N) (exc : list (nat * (Z * Z))) (extra : list query)
+    : list nat :=
+  match build disable fr gs with
+  | Raise x => if exn_code x =? build_code then [] else [4999%nat]
+  | Ok st =>
+    if build_code =? 0
+    then mismatches_grid st rl (enum_queries nl names) exc 0
+         ++ map (fun i => (4000 + i)%nat) (mismatches st rl extra 0)
+    else [4998%nat]
+  end.
